@@ -152,6 +152,7 @@ Definition field_ops (c : fcfg) : list (string * (list Z -> list Z)) :=
     ("ark.from_biguint"%string, a1 (fun x => one_ (x mod m))); ("ark.into_biguint"%string, a1 (fun x => one_ x));
     ("ark.ser"%string, a1 (fun x => to_bytes_le (f_n8 c) x));
     ("ark.deser"%string, aL (fun l => match deser_flags m (f_n8 c) 0 l with 1 :: v :: _ => 1 :: v :: nil | e => e end));
+    ("ark.deser.drip"%string, aL (fun l => match deser_flags m (f_n8 c) 0 l with 1 :: v :: _ => 1 :: v :: nil | e => e end));
     ("ark.ser_flags"%string, a3 (fun bits mask x => ser_flags m (f_n8 c) bits mask x));
     ("ark.deser_flags"%string, aFL (fun ty l => deser_flags m (f_n8 c) ty l));
     ("ark.from_random_bytes"%string, aL (fun l => 1 :: from_le_bytes_mod_order m (f_n8 c) (f_fsp2 c) l :: nil));
